@@ -18,7 +18,7 @@ SHARD_TIMEOUT = {"quick": 240, "thorough": 1500}
 def plan(tier, seed):
     specs = []
     n = 14 if tier == "quick" else 16
-    per = 500 if tier == "quick" else 60000
+    per = 4000 if tier == "quick" else 60000
     for i in range(n):
         specs.append({"name": f"seq{i}", "kind": "seq", "index": i, "sequences": per,
                       "budget_s": 90 if tier == "quick" else 420})
